@@ -49,6 +49,43 @@ func checkC29(r *core.Run, p *core.Program) {
 	a := newAnalysis(p)
 	dump := os.Getenv("VERIF_DUMP") != ""
 
+	// forwarding helpers: unexported functions whose body is `…, err := <I/O call>; return err` (optionally with
+	// other statements before): they hand the error to their caller, which is then judged like a direct I/O site
+	forwarders := map[*types.Func]bool{}
+	for _, rel := range []string{"cbe", "cte", "ce"} {
+		pkg := p.Pkg(rel)
+		info := pkg.TypesInfo
+		for _, f := range funcsOf(pkg) {
+			sig := f.Obj.Type().(*types.Signature)
+			if f.Obj.Exported() || sig.Results().Len() != 1 || !isErrorType(sig.Results().At(0).Type()) {
+				continue
+			}
+			body := f.Decl.Body.List
+			if len(body) < 2 {
+				continue
+			}
+			as, ok1 := body[len(body)-2].(*ast.AssignStmt)
+			ret, ok2 := body[len(body)-1].(*ast.ReturnStmt)
+			if !ok1 || !ok2 || len(ret.Results) != 1 || len(as.Rhs) != 1 {
+				continue
+			}
+			call, ok := as.Rhs[0].(*ast.CallExpr)
+			if !ok {
+				continue
+			}
+			cal := callee(info, call)
+			if cal == nil || returnsError(cal) < 0 || returnsError(cal) >= len(as.Lhs) {
+				continue
+			}
+			rt := recvType(cal)
+			if rt == nil || !(typeIs(rt, "io", "Writer") || typeIs(rt, "io", "StringWriter") || typeIs(rt, "io", "Reader")) {
+				continue
+			}
+			if o := objOf(info, as.Lhs[returnsError(cal)]); o != nil && o == objOf(info, ret.Results[0]) {
+				forwarders[f.Obj] = true
+			}
+		}
+	}
 	nSites := 0
 	for _, rel := range []string{"cbe", "cte", "ce"} {
 		pkg := p.Pkg(rel)
@@ -100,11 +137,16 @@ func checkC29(r *core.Run, p *core.Program) {
 					kind = "io"
 				case !core.InModule(cal) && takesReader(cal):
 					kind = "decode"
+				case forwarders[cal]:
+					kind = "io" // an unexported helper that hands the error of its I/O call straight to its caller
 				default:
 					return
 				}
 				nSites++
 				key := fmt.Sprintf("%s|%s %s", f.Name(), kind, strings.TrimPrefix(cal.FullName(), "("))
+				if forwarders[cal] {
+					key = fmt.Sprintf("%s|%s %s", f.Name(), kind, core.ObjName(cal))
+				}
 				if dump {
 					fmt.Printf("errsite %s %s\n", p.Pos(call.Pos()), key)
 				}
@@ -132,6 +174,13 @@ func checkC29(r *core.Run, p *core.Program) {
 							return true
 						}
 						be, ok := stripParens(ifs.Cond).(*ast.BinaryExpr)
+						if ok && be.Op == token.EQL && objOf(info, be.X) == errObj && isNilExpr(info, be.Y) {
+							// `if err == nil { … } else { raise }`
+							if eb, isBlock := ifs.Else.(*ast.BlockStmt); isBlock && (a.alwaysPanics(info, eb.List) || raisesOrReturns(a, info, eb.List, errObj)) {
+								handled = true
+							}
+							return true
+						}
 						if !ok || be.Op != token.NEQ || objOf(info, be.X) != errObj || !isNilExpr(info, be.Y) {
 							return true
 						}
@@ -140,6 +189,10 @@ func checkC29(r *core.Run, p *core.Program) {
 						}
 						return true
 					})
+					// or the function is a forwarding helper: `…, err := io(); return err` (its callers are judged instead)
+					if !handled && forwarders[f.Obj] {
+						handled = true
+					}
 					// or the named error result itself, when nothing but a bare return follows the assignment
 					if !handled {
 						sig := f.Obj.Type().(*types.Signature)
